@@ -298,7 +298,12 @@ def rt_sigcmp(req):
                           annotation=lambda x: x.annotation)
             fresh = dict(sources=['S'], source_depths={'S': 7}, upgraded_annotation=S.EmptyAnnotation, function=rt_sigcmp,
                          name=prm.name + '_', annotation='A')
-            for kw_, val in fresh.items():
+            # ... and the boundary values an `x or default` shortcut would swallow
+            falsy = [('sources', []), ('source_depths', {}), ('default', None), ('default', 0), ('annotation', None),
+                     ('annotation', 0), ('annotation', ''), ('function', None)]
+            for kw_, val in list(fresh.items()) + falsy:
+                if kw_ == 'default' and prm.kind in (prm.VAR_POSITIONAL, prm.VAR_KEYWORD):
+                    continue       # inspect refuses defaults on star parameters
                 q = prm.replace(**{kw_: val})
                 if type(q) is not S.UpgradedParameter:
                     problems.append('Parameter.replace(%s=...) returned a %s' % (kw_, type(q).__name__))
@@ -312,13 +317,15 @@ def rt_sigcmp(req):
                       parameters=list(u.parameters.values())[:1])
         sfields = dict(sources=lambda x: x.sources, upgraded_return_annotation=lambda x: x.upgraded_return_annotation,
                        return_annotation=lambda x: x.return_annotation, parameters=lambda x: list(x.parameters.values()))
-        for kw_, val in sfresh.items():
+        sfalsy = [('sources', {}), ('parameters', []), ('parameters', ()), ('return_annotation', None), ('return_annotation', 0),
+                  ('return_annotation', '')]
+        for kw_, val in list(sfresh.items()) + sfalsy:
             q = u.replace(**{kw_: val})
             if type(q) is not S.UpgradedSignature:
                 problems.append('Signature.replace(%s=...) returned a %s' % (kw_, type(q).__name__))
                 continue
             for f_, get in sfields.items():
-                want = val if f_ == kw_ else get(u)
+                want = (list(val) if f_ == 'parameters' else val) if f_ == kw_ else get(u)
                 if get(q) is not want and get(q) != want:
                     problems.append('replace-field: Signature.replace(%s=...) left .%s = %r, expected %r (on %s)' % (
                         kw_, f_, get(q), want, u))
@@ -740,14 +747,42 @@ def rt_modorder(req):
     from . import real_mod
     _, ps, Pn, Wn, ann = req
     steps = []
+    # each decorator object is made once and used again for every order (repeated use must not change the result)
     if Pn:
-        steps.append(('posoargs', lambda f: modifiers.posoargs(*Pn)(f)))
+        steps.append(('posoargs', modifiers.posoargs(*Pn)))
     for w in Wn:
-        steps.append(('kwoargs:' + w, lambda f, w=w: modifiers.kwoargs(w)(f)))
+        steps.append(('kwoargs:' + w, modifiers.kwoargs(w)))
     if ann:
-        steps.append(('annotate', lambda f: modifiers.annotate(**{ann: 42})(f)))
+        steps.append(('annotate', modifiers.annotate(**{ann: 42})))
     outcomes = {}
     problems = []
+    # autokwoargs(exceptions=...) kept in a variable and applied to several copies of the function
+    dflt = [p[0] for p in ps if p[1] == 'pk' and p[2] is not None]
+    if dflt:
+        for ex in ([], dflt[:1]):
+            auto = modifiers.autokwoargs(exceptions=list(ex))
+            seen = []
+            for rep in range(3):
+                f = core.make_def(tuple(ps), body=real_mod.ret_body(ps) + '  # auto %d' % rep)
+                try:
+                    with warnings.catch_warnings():
+                        warnings.simplefilter('ignore')
+                        g = auto(f)
+                        sg = str(sigtools.signature(g))
+                except ValueError as e:
+                    sg = 'ValueError'
+                calls = []
+                if sg != 'ValueError':
+                    for args, kw in _small_calls(ps):
+                        try:
+                            r = g(*args, **dict(kw))
+                            calls.append(tuple(sorted((k, repr(v)) for k, v in r.items())))
+                        except TypeError:
+                            calls.append('typeerror')
+                seen.append((sg, tuple(calls)))
+            if len(set(seen)) > 1:
+                problems.append('reuse-dependent: autokwoargs(exceptions=%r) applied to identical functions %s gives %s the first time and %s later' % (
+                    ex, core.fmt_params(ps), seen[0][0], [x[0] for x in seen[1:]]))
     for order in itertools.permutations(range(len(steps))):
         f = core.make_def(tuple(ps), body=real_mod.ret_body(ps) + '  # fresh %s' % (order,))
         f = type(f)(f.__code__, f.__globals__, f.__name__, f.__defaults__, f.__closure__)
